@@ -162,7 +162,7 @@ func TestVerifC10(t *testing.T) {
 		}
 		return b.Bytes()
 	}
-	np := 4 + n/4
+	np := 4 + n/6
 	pooled := newPostingsBuilder(1024)
 	pooledUsed := false
 	var freshB *postingsBuilder
@@ -233,7 +233,7 @@ func TestVerifC10(t *testing.T) {
 	}
 
 	// ================= PartCase: real Builder, the document -> shard assignment
-	nb := 5 + n/25
+	nb := 5 + n/40
 	for bi := 0; bi < nb; bi++ {
 		dir := filepath.Join(tmp, fmt.Sprintf("p%d", bi))
 		os.MkdirAll(dir, 0o755)
